@@ -15,7 +15,8 @@
    [Parses].  The obligations that cannot be discharged are exactly [bad_child], i.e. the table
    [Shape.bad_pair] (Syntax/ShapeProofs.v), each entry of which is refuted in Syntax/Refuted.v. *)
 From IronCalc Require Import Base.Prelude Codec.RefA1 Syntax.Token Syntax.Ast Syntax.Printer Syntax.Parser
-  Syntax.Shape Syntax.GlueProofs Syntax.RoundTripLevels Syntax.RoundTripNodes Syntax.RoundTripArgs Syntax.RoundTripLeaves.
+  Syntax.Shape Syntax.GlueProofs Syntax.RoundTripLevels Syntax.RoundTripNodes Syntax.RoundTripArgs Syntax.RoundTripLeaves
+  Syntax.RoundTripArrays.
 Local Open Scope nat_scope.
 
 Ltac split_and :=
@@ -148,6 +149,76 @@ Section Main.
     | H : negb _ = true |- _ => apply negb_true_iff in H
     end.
 
+  (* ---- leaves and "-n", also used for array elements ------------------------------------- *)
+  Lemma good_bool b : good (EBool b).
+  Proof.
+    apply good_primary; [reflexivity|apply single_heads; reflexivity|].
+    intros g f rest _ _ Hfo. apply no_lparen in Hfo. cbn [print app p_primary].
+    destruct rest as [|t r]; [reflexivity|]. destruct t; try reflexivity. contradiction.
+  Qed.
+  Lemma good_num n : good (ENum n).
+  Proof. apply good_primary; [reflexivity|apply single_heads; reflexivity|]. reflexivity. Qed.
+  Lemma good_str s : good (EStr s).
+  Proof. apply good_primary; [reflexivity|apply single_heads; reflexivity|]. reflexivity. Qed.
+  Lemma good_err k : is_terror k (err_tokens nm k) = true -> good (EErr k).
+  Proof.
+    intro Hi. unfold is_terror in Hi. destruct (err_tokens nm k) as [|t l] eqn:E; [discriminate|].
+    destruct t; try discriminate. destruct l; [|discriminate]. apply Z.eqb_eq in Hi. subst e.
+    assert (Hp : pr (EErr k) = [TError k]) by (cbn [print]; exact E).
+    apply good_primary; [reflexivity|rewrite Hp; apply single_heads; reflexivity|].
+    intros g f rest _ _ _. rewrite Hp. reflexivity.
+  Qed.
+
+  Lemma good_neg c :
+    good c -> (neg_parens c = false -> rank_x xl c <= 2) ->
+    (forall rest, not_sign (wrap (neg_parens c) (pr c) ++ rest)) -> good (ENeg c).
+  Proof.
+    intros Hc Hq Hh g Hg. cbn [size] in Hg. change (rank_x xl (ENeg c)) with 3. cbn [print size].
+    assert (P : PS (pexpr g) (S (size c)) (wrap (neg_parens c) (pr c)) c 2).
+    { apply child_parses; try lia; assumption. }
+    apply Parses_of_tight; [lia|intro; lia|intro; lia|intro; lia|].
+    intros f rest Hfu Hfo. cbn [app]. unfold p_power. cbn [skip_signs negb].
+    rewrite skip_signs_none by apply Hh.
+    rewrite (ps_range _ _ _ _ _ _ _ _ P ltac:(lia) f rest Hfu Hfo). reflexivity.
+  Qed.
+
+  Lemma good_elem a : aelem_ok nm a = true -> good (ast_of_aelem a).
+  Proof.
+    destruct a as [b|[|] n|s|k|]; cbn [ast_of_aelem aelem_ok]; intro H; try discriminate.
+    - apply good_bool.
+    - apply good_neg; [apply good_num|intros _; cbn; lia|intro rest; exact I].
+    - apply good_num.
+    - apply good_str.
+    - apply good_err; exact H.
+  Qed.
+
+  Lemma size_elem a : size (ast_of_aelem a) <= 2.
+  Proof. destruct a as [b|[|] n|s|k|]; cbn; lia. Qed.
+
+  Lemma rec_elem_ok g : 4 <= g -> forall a rest, aelem_ok nm a = true -> follow 8 rest ->
+    pexpr g (print_aelem nm a ++ rest) = Some (ast_of_aelem a, rest).
+  Proof.
+    intros Hg a rest Ha Hfo. rewrite <- (print_ast_of_aelem m nm a).
+    apply rec_closed; [apply good_elem; exact Ha|pose proof (size_elem a); lia|exact Hfo].
+  Qed.
+
+  Lemma rows_ok r0 (rs : list (list aelem)) :
+    negb (Nat.eqb (length r0) 0) = true ->
+    forallb (fun r => Nat.eqb (length r) (length r0)) rs = true ->
+    forallb (forallb (aelem_ok nm)) rs = true ->
+    Forall (row_ok nm (length r0)) rs.
+  Proof.
+    intros H0. apply negb_true_iff in H0. apply Nat.eqb_neq in H0.
+    induction rs as [|r rs IH]; intros Hl Ho; [constructor|].
+    cbn [forallb] in Hl, Ho. apply andb_true_iff in Hl as [Hl1 Hl2]. apply andb_true_iff in Ho as [Ho1 Ho2].
+    apply Nat.eqb_eq in Hl1. constructor; [|apply IH; assumption].
+    repeat split; [exact Hl1|lia|exact Ho1].
+  Qed.
+
+  Lemma fold_lengths_ge (r0 : list aelem) rs :
+    length r0 <= fold_right (fun r n => length r + n) 0 (r0 :: rs).
+  Proof. cbn [fold_right]. lia. Qed.
+
   (* ---- the induction ---------------------------------------------------------------------- *)
   Theorem good_all e :
     image_at m nm env false e = true -> fragment e = true -> no_bad xl e = true ->
@@ -155,11 +226,9 @@ Section Main.
   Proof.
     induction e using ast_rect'; intros Hi Hf Hb Hl;
       cbn [image_at fragment no_bad lower_stable] in Hi, Hf, Hb, Hl; try discriminate; split_and.
-    - (* EBool *) apply good_primary; [reflexivity|apply single_heads; reflexivity|].
-      intros g f rest _ _ Hfo. apply no_lparen in Hfo. cbn [print app p_primary].
-      destruct rest as [|t r]; [reflexivity|]. destruct t; try reflexivity. contradiction.
-    - (* ENum *) apply good_primary; [reflexivity|apply single_heads; reflexivity|]. reflexivity.
-    - (* EStr *) apply good_primary; [reflexivity|apply single_heads; reflexivity|]. reflexivity.
+    - (* EBool *) apply good_bool.
+    - (* ENum *) apply good_num.
+    - (* EStr *) apply good_str.
     - (* ERef *) unfold pref_ok in *. destruct (print_pref m p) as [q|] eqn:E; [|discriminate].
       assert (Hp : pr (ERef s i p) = [TReference s q]) by (cbn [print]; unfold print_ref; rewrite E; reflexivity).
       apply good_primary; [reflexivity|rewrite Hp; apply single_heads; reflexivity|].
@@ -250,6 +319,16 @@ Section Main.
       destruct (fn_lookup nm (trim_start (t_xlfn ++ t_xlws) name)); [discriminate|].
       destruct (fn_lookup nm (trim_start t_xlfn name)); [discriminate|].
       rewrite Htrim. reflexivity.
+    - (* EArray *)
+      destruct rows as [|r0 rs]; [discriminate|]. split_and.
+      apply good_primary; [reflexivity|intro rest; split; exact I|].
+      intros g fu rest Hg Hfu _. cbn [size] in Hg, Hfu. pose proof (fold_lengths_ge r0 rs) as Hfl.
+      cbn [print app]. rewrite <- app_assoc. cbn [app].
+      apply (array_primary_ok m nm env (pexpr g) (rec_elem_ok g ltac:(cbn [length] in Hg; lia)) rest r0 rs fu).
+      + match goal with H : pm_dot m || _ = true |- _ => apply orb_true_iff in H as [H|H]; [left; exact H|right] end.
+        cbn [length] in *. destruct rs; [reflexivity|discriminate].
+      + cbn [length] in Hfu. lia.
+      + apply rows_ok; assumption.
     - (* EDefName *)
       apply good_primary; [reflexivity|apply single_heads; reflexivity|].
       intros g fu rest _ _ Hfo. cbn [print app]. rewrite ident_primary by exact Hfo.
@@ -281,10 +360,13 @@ Section Main.
         apply good_primary; [rewrite Hx; reflexivity|intro rest; cbn [print]; rewrite Hx; split; exact I|].
         intros g fu rest Hg Hfu _. cbn [size] in Hg, Hfu. cbn [print]. rewrite Hx.
         assert (HA : args_then_rparen m (pexpr g) fu (join (sep_token (parse_arg_sep m)) (map pr [e]) ++ TRParen :: rest) = Some ([e], rest)).
-        { apply args_then_rparen_ok; [cbn [length]; lia|destruct e; reflexivity|].
-          eapply args_good with (args := [e]); try (cbn [forallb]; rewrite ?andb_true_r; try rewrite Hx; try assumption; reflexivity).
-          - constructor; [intros; apply IHe; try assumption|constructor]. rewrite <- Hx. assumption.
+        { apply args_then_rparen_ok; [cbn [length]; lia|destruct e; try reflexivity; discriminate|].
+          eapply args_good with (args := [e]).
+          - constructor; [|constructor]. rewrite ?Hx. intros. apply IHe; assumption.
           - cbn [forallb]. rewrite andb_true_r. destruct e; try assumption; discriminate.
+          - cbn [forallb]. rewrite andb_true_r, ?Hx. assumption.
+          - cbn [forallb]. rewrite andb_true_r, ?Hx. assumption.
+          - cbn [forallb]. rewrite andb_true_r, ?Hx. assumption.
           - cbn [fold_right]. lia. }
         cbn [map join] in HA. cbn [app p_primary]. rewrite <- app_assoc. cbn [app]. unfold parse_call.
         match goal with H : text_eqb (nm_upper nm t_xlfn_single) t_lambda = false |- _ => rewrite H end.
@@ -313,10 +395,13 @@ Section Main.
         apply good_primary; [rewrite Hx; reflexivity|intro rest; cbn [print]; rewrite Hx; split; exact I|].
         intros g fu rest Hg Hfu _. cbn [size] in Hg, Hfu. cbn [print]. rewrite Hx.
         assert (HA : args_then_rparen m (pexpr g) fu (join (sep_token (parse_arg_sep m)) (map pr [e]) ++ TRParen :: rest) = Some ([e], rest)).
-        { apply args_then_rparen_ok; [cbn [length]; lia|destruct e; reflexivity|].
-          eapply args_good with (args := [e]); try (cbn [forallb]; rewrite ?andb_true_r; try rewrite Hx; try assumption; reflexivity).
-          - constructor; [intros; apply IHe; try assumption|constructor]. rewrite <- Hx. assumption.
+        { apply args_then_rparen_ok; [cbn [length]; lia|destruct e; try reflexivity; discriminate|].
+          eapply args_good with (args := [e]).
+          - constructor; [|constructor]. rewrite ?Hx. intros. apply IHe; assumption.
           - cbn [forallb]. rewrite andb_true_r. destruct e; try assumption; discriminate.
+          - cbn [forallb]. rewrite andb_true_r, ?Hx. assumption.
+          - cbn [forallb]. rewrite andb_true_r, ?Hx. assumption.
+          - cbn [forallb]. rewrite andb_true_r, ?Hx. assumption.
           - cbn [fold_right]. lia. }
         cbn [map join] in HA. cbn [app p_primary]. rewrite <- app_assoc. cbn [app]. unfold parse_call.
         match goal with H : text_eqb (nm_upper nm t_xlfn_anchor) t_lambda = false |- _ => rewrite H end.
@@ -352,15 +437,9 @@ Section Main.
       + eapply Parses_weaken; [|apply IHe2; try assumption; lia]. exact Hrr.
     - (* ENeg *)
       negb_false. match goal with H : bad_child _ _ = false |- _ => cbn [bad_child] in H; rename H into Hr end.
-      intros g Hg. cbn [size] in Hg. change (rank_x xl (ENeg e)) with 3. cbn [print size].
       assert (Hq : neg_parens e = false -> rank_x xl e <= 2).
       { intro E. rewrite E in Hr. cbn [negb andb] in Hr. apply ltb_false in Hr. exact Hr. }
-      assert (P : PS (pexpr g) (S (size e)) (wrap (neg_parens e) (pr e)) e 2).
-      { apply child_parses; try lia; [apply IHe; assumption|exact Hq]. }
-      apply Parses_of_tight; [lia|intro; lia|intro; lia|intro; lia|].
-      intros f rest Hfu Hfo. cbn [app]. unfold p_power. cbn [skip_signs negb].
-      rewrite skip_signs_none by (apply child_head; assumption).
-      rewrite (ps_range _ _ _ _ _ _ _ _ P ltac:(lia) f rest Hfu Hfo). reflexivity.
+      apply good_neg; [apply IHe; assumption|exact Hq|apply child_head; assumption].
     - (* EPct *)
       negb_false. match goal with H : bad_child _ _ = false |- _ => cbn [bad_child] in H; rename H into Hr end.
       assert (Hq : rank_x xl e <= 3).
@@ -372,12 +451,7 @@ Section Main.
       intros f rest Hfu Hfo. rewrite <- app_assoc. cbn [app].
       rewrite (ps_power _ _ _ _ _ _ _ _ P ltac:(lia) f (TPercent :: rest) Hfu) by (cbn [follow cont_level]; lia).
       reflexivity.
-    - (* EErr *)
-      unfold is_terror in *. destruct (err_tokens nm e) as [|t l] eqn:E; [discriminate|].
-      destruct t; try discriminate. destruct l; [|discriminate]. apply Z.eqb_eq in Hi. subst e0.
-      assert (Hp : pr (EErr e) = [TError e]) by (cbn [print]; exact E).
-      apply good_primary; [reflexivity|rewrite Hp; apply single_heads; reflexivity|].
-      intros g f rest _ _ _. rewrite Hp. reflexivity.
+    - (* EErr *) apply good_err; exact Hi.
   Qed.
 
   (* ---- the theorem -------------------------------------------------------------------------- *)
